@@ -543,25 +543,54 @@ func progRandom(r *Rng) Sx {
 	return progSx(a.b, r.Bytes(r.Intn(70)), uint64(r.Range(20000, 300000)), 4, nil, false)
 }
 
-// template 5: jump-heavy code with JUMPDEST bytes inside PUSH data
-func progJumps(r *Rng) Sx {
-	n := r.Range(3, 12)
-	const bl = 15
+// template 5: jump-heavy code with JUMPDEST bytes inside PUSH data of varying length.
+// [foreign] are JUMPDEST positions of ANOTHER program of the same case: jumping there is valid
+// only according to the other code's analysis.
+func jumpLayout(ks []int) (pos []int, total int) {
+	for _, k := range ks {
+		pos = append(pos, total)
+		total += 10 + 1 + k // JUMPDEST PUSH1 PUSH1 MSTORE8 PUSH2 JUMP | PUSHk junk
+	}
+	return pos, total
+}
+
+func progJumps(r *Rng, ks []int, foreign []int) Sx {
+	n := len(ks)
+	pos, total := jumpLayout(ks)
 	var code []byte
 	for i := 0; i < n; i++ {
-		t := bl * r.Range(i+1, n)
-		switch r.Intn(8) {
-		case 0:
-			t = bl*r.Intn(n) + 11 + r.Intn(4) // a 0x5b inside PUSH4 data
-		case 1:
-			t = bl*r.Intn(n) + 1 // not a JUMPDEST
-		case 2:
-			t = bl*(n+1) + r.Intn(50) // beyond the code
+		t := total // the final block
+		if i+1 < n {
+			t = pos[r.Range(i+1, n-1)]
 		}
-		code = append(code, 0x5b, 0x60, byte(i+1), 0x60, byte(i), 0x53, 0x61, byte(t>>8), byte(t), 0x56, 0x63, 0x5b, 0x5b, 0x5b, 0x5b)
+		switch r.Intn(16) {
+		case 0:
+			j := r.Intn(n)
+			t = pos[j] + 11 + r.Intn(ks[j]) // a 0x5b inside PUSH data
+		case 1:
+			t = pos[r.Intn(n)] + 1 // not a JUMPDEST
+		case 2:
+			t = total + 5 + r.Intn(50) // beyond the code
+		case 3, 4:
+			if len(foreign) > 0 {
+				t = foreign[r.Intn(len(foreign))]
+			}
+		}
+		code = append(code, 0x5b, 0x60, byte(i+1), 0x60, byte(i), 0x53, 0x61, byte(t>>8), byte(t), 0x56, byte(0x60+ks[i]-1))
+		for k := 0; k < ks[i]; k++ {
+			code = append(code, 0x5b)
+		}
 	}
 	code = append(code, 0x5b, 0x60, 0x20, 0x5f, 0xf3)
 	return progSx(code, nil, 100000, 5, nil, false)
+}
+
+func jumpShape(r *Rng) []int {
+	ks := make([]int, r.Range(3, 12))
+	for i := range ks {
+		ks[i] = r.Range(1, 8)
+	}
+	return ks
 }
 
 // template 6: forwards calldata to a precompile, returns success || output
@@ -660,7 +689,11 @@ func genEVM(r *Rng) Sx {
 		case x < 14:
 			progs = append(progs, progRandom(r))
 		case x < 17:
-			progs = append(progs, progJumps(r))
+			// two codes whose JUMPDESTs sit where the other one has PUSH data
+			ks1, ks2 := jumpShape(r), jumpShape(r)
+			p1, _ := jumpLayout(ks1)
+			p2, _ := jumpLayout(ks2)
+			progs = append(progs, progJumps(r, ks1, p2), progJumps(r, ks2, p1))
 		default:
 			addr := pcAddrs[r.Intn(len(pcAddrs))]
 			in := pcInput(r, addr)
@@ -706,19 +739,19 @@ func gen(r *Rng, tier string, emit func(Sx)) {
 	emit(L(I(0), I(0), L(L(I(1)), L(I(3)), L(I(10), I(0)), L(I(0)), L(I(3)), L(I(5), I(0)), L(I(5), I(17)), L(I(6), I(0)), L(I(7), I(-1)),
 		L(I(2), I(5)), L(I(5), I(1)), L(I(6), I(1)), L(I(4)), L(I(0)), L(I(3)), L(I(10), I(1)), L(I(1)), L(I(3)), L(I(1)), L(I(1)))))
 	emit(L(I(1), I(64), L(L(I(0), I(64)), L(I(4), I(0), I(64)), L(I(6), I(64)), L(I(7)), L(I(5)), L(I(6), I(64)), L(I(0), I(32)), L(I(4), I(0), I(32)))))
-	for i := 0; i < 1200*mul; i++ {
+	for i := 0; i < 900*mul; i++ {
 		emit(genArenaWalk(r.Fork()))
 	}
 	for i := 0; i < 6*mul; i++ {
 		emit(genArenaLimit(r.Fork()))
 	}
-	for i := 0; i < 1200*mul; i++ {
+	for i := 0; i < 900*mul; i++ {
 		emit(genMem(r.Fork()))
 	}
-	for i := 0; i < 200*mul; i++ {
+	for i := 0; i < 160*mul; i++ {
 		emit(genEVM(r.Fork()))
 	}
-	for i := 0; i < 400*mul; i++ {
+	for i := 0; i < 300*mul; i++ {
 		emit(genPrecompile(r.Fork()))
 	}
 }
